@@ -30,7 +30,7 @@ impl GravsoftSpec {
     pub fn generate(rng: &mut Rng) -> GravsoftSpec {
         let projected = rng.chance(0.25);
         // mostly small; now and then large enough to cross any internal block size
-        let (rows, cols) = if rng.chance(0.02) { (2 + rng.below(150), 2 + rng.below(150)) } else { (2 + rng.below(6), 2 + rng.below(7)) };
+        let (rows, cols) = if rng.chance(0.006) { (2 + rng.below(150), 2 + rng.below(150)) } else { (2 + rng.below(6), 2 + rng.below(7)) };
         let bands = 1 + rng.below(3);
         // steps and bounds exactly representable (multiples of 1/8)
         let (dlat, dlon, lat_s, lon_w) = if projected {
@@ -150,6 +150,11 @@ impl GravsoftSpec {
                             out.push_str(eol);
                             out.push_str("  ");
                         }
+                        5 if rng.chance(0.3) => {
+                            // any white space separates numbers: vertical tab, form feed,
+                            // no-break space, NEL, thin space, ideographic space
+                            out.push_str(*rng.pick(&["\u{b}", "\u{c}", "\u{a0}", "\u{85}", "\u{2009}", "\u{3000}"]));
+                        }
                         _ => out.push(' '),
                     };
                 }
@@ -244,6 +249,11 @@ pub struct SubGridSpec {
 pub struct Ntv2Spec {
     pub big_endian: bool,
     pub subgrids: Vec<SubGridSpec>,
+    /// what the purely descriptive text fields (VERSION, SYSTEM_F, SYSTEM_T, CREATED,
+    /// UPDATED) hold: 0 plain ASCII, 1 Latin-1 bytes (not valid UTF-8), 2 multi-byte
+    /// UTF-8 cut by the field width, 3 zero bytes. No reader needs them.
+    #[serde(default)]
+    pub meta: u8,
 }
 
 fn put_i32(out: &mut Vec<u8>, key: &str, v: i32, be: bool) {
@@ -269,6 +279,14 @@ fn put_str(out: &mut Vec<u8>, key: &str, v: &str) {
     s.truncate(8);
     out.extend_from_slice(s.as_bytes());
 }
+fn put_raw(out: &mut Vec<u8>, key: &str, v: &[u8]) {
+    out.extend_from_slice(format!("{:<8}", key).as_bytes());
+    let mut field = [b' '; 8];
+    for (i, b) in v.iter().take(8).enumerate() {
+        field[i] = *b;
+    }
+    out.extend_from_slice(&field);
+}
 fn put_f32(out: &mut Vec<u8>, v: f32, be: bool) {
     if be {
         out.extend_from_slice(&v.to_be_bytes());
@@ -285,9 +303,15 @@ impl Ntv2Spec {
         put_i32(&mut out, "NUM_SREC", 11, be);
         put_i32(&mut out, "NUM_FILE", self.subgrids.len() as i32, be);
         put_str(&mut out, "GS_TYPE", "SECONDS");
+        let (from, to): (&[u8], &[u8]) = match self.meta % 4 {
+            0 => (b"FROM", b"TO"),
+            1 => (b"M\xc9XICO", b"ESPA\xd1A"),
+            2 => ("ETRS89\u{20ac}".as_bytes(), "D\u{e4}nemark".as_bytes()),
+            _ => (&[0u8; 8], &[0u8; 8]),
+        };
         put_str(&mut out, "VERSION", "SIM");
-        put_str(&mut out, "SYSTEM_F", "FROM");
-        put_str(&mut out, "SYSTEM_T", "TO");
+        put_raw(&mut out, "SYSTEM_F", from);
+        put_raw(&mut out, "SYSTEM_T", to);
         put_f64(&mut out, "MAJOR_F", 6378388.0, be);
         put_f64(&mut out, "MINOR_F", 6356911.946127946, be);
         put_f64(&mut out, "MAJOR_T", 6378137.0, be);
@@ -295,7 +319,7 @@ impl Ntv2Spec {
         for g in &self.subgrids {
             put_str(&mut out, "SUB_NAME", &g.name);
             put_str(&mut out, "PARENT", &g.parent);
-            put_str(&mut out, "CREATED", "20260927");
+            put_raw(&mut out, "CREATED", if self.meta % 4 == 1 { b"ao\xfbt 26" } else { b"20260927" });
             put_str(&mut out, "UPDATED", "20260927");
             put_f64(&mut out, "S_LAT", g.s_lat, be);
             put_f64(&mut out, "N_LAT", g.n_lat, be);
@@ -347,14 +371,19 @@ impl Ntv2Spec {
         let mut subgrids = Vec::new();
         let bases = 1 + rng.below(3);
         for b in 0..bases {
-            let (rows, cols) = if rng.chance(0.02) { (4 + rng.below(90), 4 + rng.below(90)) } else { (4 + rng.below(5), 4 + rng.below(5)) };
+            let (rows, cols) = if rng.chance(0.006) { (4 + rng.below(90), 4 + rng.below(90)) } else { (4 + rng.below(5), 4 + rng.below(5)) };
             // one degree cells, or dense grids (large coordinate/step ratios); always a
             // multiple of 4 seconds so that children at inc/2 and inc/4 stay exact
             let inc = if rows > 9 || cols > 9 { *rng.pick(&[300.0, 60.0, 120.0, 40.0]) } else { *rng.pick(&[3600.0, 3600.0, 1800.0, 300.0, 60.0, 120.0, 40.0]) };
             // bases side by side, separated by a gap, so that they never overlap
             let s_lat = 3600.0 * rng.range(-60, 50) as f64 + inc * rng.range(0, 7) as f64;
             // (at most 8 columns of at most one degree within a 50 degree slot)
-            let w = 3600.0 * (-170.0 + 50.0 * b as f64 + rng.range(0, 30) as f64) + inc * rng.range(0, 5) as f64;
+            let mut w = 3600.0 * (-170.0 + 50.0 * b as f64 + rng.range(0, 30) as f64) + inc * rng.range(0, 5) as f64;
+            // a grid crossing, or lying entirely beyond, the antimeridian (longitudes are
+            // plain numbers in the file: 174E..186E is written as such)
+            if b == 0 && rng.chance(0.08) {
+                w = 3600.0 * *rng.pick(&[174.0, 178.0, 182.0, -186.0, -200.0]);
+            }
             let base_name = format!("B{}", b);
             let base = Self::gen_subgrid(rng, &base_name, "NONE", s_lat, w, rows, cols, inc, inc);
             if rng.chance(0.6) {
@@ -395,7 +424,7 @@ impl Ntv2Spec {
             subgrids.push(base);
         }
         rng.shuffle(&mut subgrids);
-        Ntv2Spec { big_endian, subgrids }
+        Ntv2Spec { big_endian, subgrids, meta: if rng.chance(0.3) { 1 + rng.below(3) as u8 } else { 0 } }
     }
 
     /// A single base grid with constant shifts and wide coverage
@@ -420,6 +449,7 @@ impl Ntv2Spec {
         Ntv2Spec {
             big_endian,
             subgrids: vec![g],
+            meta: 0,
         }
     }
 }
@@ -514,5 +544,6 @@ pub fn parse_gsa(text: &str) -> Option<Ntv2Spec> {
     Some(Ntv2Spec {
         big_endian: false,
         subgrids,
+        meta: 0,
     })
 }
